@@ -346,13 +346,23 @@ def poly_cases(draw, tier):
     n = draw(gen.shapes(d_min=2, d_max=6 if big else 5, n_min=1, n_max=6 if big else 5, size_max=4096 if big else 1024))
     d = len(n)
     num = st.one_of(st.integers(-3, 3), st.integers(-3, 3).map(float), gen.reals(-3, 3))
-    kind = draw(st.sampled_from(["default", "scalar", "list", "array"]))
+    kind = draw(st.sampled_from(["default", "scalar", "list", "array", "int_scalar", "int_list", "int_array"]))
     case = {"n": n, "n_arr": draw(st.booleans()), "shift_kind": kind}
+    # integer shifts (Python int, list of ints, integer ndarray) incl. large ones: (index + shift)**power then exceeds 2**63
+    bigint = st.one_of(st.integers(-3, 3), st.integers(1, 3000), st.integers(-3000, -1))
     if kind == "scalar":
         case["shift"] = draw(num)
     elif kind in ("list", "array"):
         case["shift"] = [draw(num) for _ in range(d)]
-    case["power"] = None if draw(st.integers(0, 5)) == 0 else draw(st.integers(0, 8 if big else 5))
+    elif kind == "int_scalar":
+        case["shift"] = draw(bigint)
+    elif kind in ("int_list", "int_array"):
+        case["shift"] = [draw(bigint) for _ in range(d)]
+    case["power"] = None if draw(st.integers(0, 5)) == 0 else draw(st.integers(0, 8))
+    if kind.startswith("int") and draw(st.integers(0, 3)) == 0:
+        # negative integer powers are fine as long as no index + shift is zero: use positive shifts there
+        case["power"] = draw(st.sampled_from([-1, -2, -3]))
+        case["shift"] = abs(case["shift"]) + 1 if kind == "int_scalar" else [abs(v) + 1 for v in case["shift"]]
     case["scale"] = draw(st.one_of(st.none(), st.integers(-3, 3), gen.reals(-5, 5), st.sampled_from([1e-3, -1e6, 0.5])))
     return case
 
@@ -362,11 +372,14 @@ def prop_poly(case, ctx):
     d = len(n)
     kind = case["shift_kind"]
     kw = {}
-    if kind == "scalar":
+    if kind in ("scalar", "int_scalar"):
         kw["shift"] = case["shift"]
         shift = [float(case["shift"])] * d
     elif kind == "default":
         shift = [0.0] * d
+    elif kind == "int_array":
+        kw["shift"] = np.array(case["shift"], dtype=np.int64)
+        shift = [float(s) for s in case["shift"]]
     else:
         kw["shift"] = np.array(case["shift"], dtype=float) if kind == "array" else list(case["shift"])
         shift = [float(s) for s in case["shift"]]
@@ -377,7 +390,7 @@ def prop_poly(case, ctx):
     if case["scale"] is not None:
         kw["scale"] = case["scale"]
     ctx.label(*shape_labels(n), "shift:" + kind, f"power:{power}", "scale<0" if scale < 0 else ("scale==0" if scale == 0 else "scale>0"))
-    ctx.nontrivial(kind in ("list", "array") or case["power"] not in (None, 2))
+    ctx.nontrivial(kind in ("list", "array", "int_list", "int_array") or case["power"] not in (None, 2))
 
     Y = ctx.lib(teneva.poly, arg_n(case), **kw)
     why = oracle.wellformed(Y, n)
@@ -392,7 +405,7 @@ def prop_poly(case, ctx):
         A = A + np.abs(p).reshape(sh)
     ref = float(scale) * S
     maj = abs(float(scale)) * A
-    tol = (oracle.K_of(Y) + 8.0 * (power + 2)) * EPS * maj
+    tol = (oracle.K_of(Y) + 8.0 * (abs(power) + 2)) * EPS * maj
     F = dense(Y)
     err = np.abs(F - ref)
     if np.any(err > tol) or not np.all(np.isfinite(F)):
